@@ -279,6 +279,7 @@ impl DIDUrl {
 
   /// Parse a [`DIDUrl`] from a string.
   pub fn parse(input: impl AsRef<str>) -> Result<Self, Error> {
+    crate::did::check_parser_can_scan(input.as_ref())?;
     let did_url: BaseDIDUrl = BaseDIDUrl::parse(input)?;
     Self::from_base_did_url(did_url)
   }
